@@ -1,6 +1,7 @@
 (* C13 - Read size limit is enforced on frames, fragments and inflated size. *)
 From Gws Require Import Lib.Base Spec.MaskSpec Spec.Rfc6455 Spec.Rfc6455Recv Model.Header Model.CloseCode Model.Reader
-  Proofs.FrameProofs Proofs.ReaderProofs Proofs.ReaderRefine Proofs.FragmentProofs.
+  Proofs.FrameProofs Proofs.ReaderProofs Proofs.ReaderRefine Proofs.FragmentProofs
+  Model.LimitReader Proofs.LimitReaderProofs Gen.Funcs Proofs.GenFuncsProofs.
 Local Open Scope N_scope.
 
 Section C13.
@@ -79,6 +80,41 @@ Theorem C13_within_limit_delivered_fragmented : forall c st fuel comp op lf0 k0 
 Proof. exact (reader_fragmented_delivered utf8_valid inflate W wdict wwrite). Qed.
 End C13.
 
+(* The hypothesis inflate_limited discharged for the code that exists: deflater.Decompress copies from
+   limitReader(flate reader, limit) into a buffer and returns it only if the copy ended without error.  Whatever the
+   flate reader hands out per Read call (flate_reads: any chunk contents and sizes, any stopping point, any error), the
+   copy loop over limitedReader.Read - Model/LimitReader.v, whose Read is proved equal to the definition REGENERATED from
+   compress.go on this run (the running count, `c.N > c.M`, the 1009 error) - returns at most `limit` bytes ... *)
+Theorem C13_inflated_size_limit : forall flate_reads d s l out,
+  inflate_via_limit flate_reads d s l = Some out -> (Z.of_nat (length out) <= l)%Z.
+Proof. exact inflate_via_limit_limited. Qed.
+
+Theorem C13_limit_reader_from_source : forall reads cN cM acc, lr_copy_src cN cM reads acc = lr_copy cN cM reads acc.
+Proof. exact limit_copy_from_source. Qed.
+
+(* ... and everything the inflater produced, in order, when that is within the limit (exactly at it included) *)
+Theorem C13_within_limit_inflated : forall reads cM,
+  Forall (fun r => snd r = 0%Z) (removelast reads) -> (exists p, last reads ([], 0%Z) = (p, err_eof)) -> reads <> [] ->
+  (Z.of_nat (length (concat (map fst reads))) <= cM)%Z ->
+  lr_copy 0 cM reads [] = Some (concat (map fst reads)).
+Proof. intros reads cM H1 H2 H3 H4. exact (lr_copy_complete reads 0%Z cM [] eq_refl H1 H2 H3 H4). Qed.
+
+(* so with Decompress as the inflater, no hypothesis is left in "never delivered above the limit" *)
+Theorem C13_no_oversize_delivery_decompress : forall utf8_valid flate_reads (W : Type) wdict wwrite c, limit_ok c -> forall fuel st bs op p,
+  wf_bytes bs -> (length bs < fuel)%nat ->
+  In (EvMsg op p) (fst (read_stream utf8_valid (inflate_via_limit flate_reads) W wdict wwrite fuel c st bs)) ->
+  (Z.of_nat (length p) <= r_limit c)%Z.
+Proof.
+  intros utf8_valid flate_reads W wdict wwrite.
+  exact (C13_no_oversize_delivery utf8_valid (inflate_via_limit flate_reads) W wdict wwrite (inflate_via_limit_limited flate_reads)).
+Qed.
+
+(* a bomb: the inflater keeps producing 4-byte chunks; with limit 10 the copy fails at the third chunk *)
+Example C13_limit_nonvacuous :
+  lr_copy 0 10 [([1; 2; 3; 4]%N, 0%Z); ([1; 2; 3; 4]%N, 0%Z); ([1; 2; 3; 4]%N, 0%Z); ([]%N, err_eof)] [] = None
+  /\ lr_copy 0 10 [([1; 2; 3; 4]%N, 0%Z); ([1; 2; 3; 4; 5; 6]%N, err_eof)] [] = Some [1; 2; 3; 4; 1; 2; 3; 4; 5; 6]%N.
+Proof. vm_compute. split; reflexivity. Qed.
+
 (* non-vacuity: limit 4; a 4-byte message is delivered, a 5-byte one answered 1009, 3+2 bytes in fragments answered 1009 *)
 Example C13_nonvacuous :
   let c := {| r_server := false; r_pmd := false; r_limit := 4; r_utf8 := false |} in
@@ -93,3 +129,7 @@ Print Assumptions C13_frame_too_large.
 Print Assumptions C13_fragments_too_large.
 Print Assumptions C13_within_limit_delivered.
 Print Assumptions C13_within_limit_delivered_fragmented.
+Print Assumptions C13_inflated_size_limit.
+Print Assumptions C13_limit_reader_from_source.
+Print Assumptions C13_within_limit_inflated.
+Print Assumptions C13_no_oversize_delivery_decompress.
